@@ -85,6 +85,14 @@ CHECKS.update({
             "DESIGN.md §3 C19"),
 })
 
+CHECKS.update({
+    "C16": ("exploration",
+            "property-based testing over seeded datasets with a brute-force f64 oracle (metamorphic relation across build routes)",
+            "Seeded datasets (uniform sphere / Gaussian clusters / 3-d manifold embedded in d) x 3 metrics x dim {8,16,32,64} x size {500..1200 quick, ..5000 thorough} at the default index parameters; the same live set is reached by online inserts, the bulk constructor, 3x insert + delete two thirds + forced tombstone compaction, and snapshot/WAL recovery; 200 held-out queries per dataset: mean recall@10 >= 0.80 per route, |recall(route) - recall(online)| <= 0.10, and repeating a query returns bit-identical distances and the same documents outside exact ties.",
+            "Everything is seeded; the floor is the weakest threshold the project's own guards use. Recall counts a returned document whose reference distance is within the true 10th distance.",
+            "DESIGN.md §3 C16"),
+})
+
 NOT_APPLICABLE = {
 }
 
